@@ -658,7 +658,7 @@ def setup():
 
     def job(args):
         name, mod, cfg, to = args
-        o, rc, dt = run_tlc(mod, cfg=cfg, workers=1, timeout=to, xmx="3g", tag="setup")
+        o, rc, dt = run_tlc(mod, cfg=cfg, workers=(9 if mod == "MC_Toy82" else 1), timeout=to, xmx="3g", tag="setup")
         ok = rc == 0 and "No error has been found" in o
         return name, ok, dt, o
 
